@@ -238,9 +238,11 @@ Definition suicide (a : aside) (ad : N) : aside * bool :=
     (upd_obj (a_append (ESuicide ad (o_suicided o) (o_balance o)) a) ad
              (fun o => set_o_balance 0 (set_o_suicided true o)), true)
   end.
+(* createObject hands prev to its caller only if it is not an object deleted by an earlier
+   Finalise of the block (fix af1e035); the journal entry keeps it either way *)
 Definition create_account (a : aside) (ad : N) : aside :=
   match create_object a ad with
-  | (a1, Some p) => upd_obj a1 ad (set_o_balance (o_balance p))
+  | (a1, Some p) => if o_deleted p then a1 else upd_obj a1 ad (set_o_balance (o_balance p))
   | (a1, None) => a1
   end.
 Definition loglist (a : aside) (th : N) : list logrec :=
